@@ -1,7 +1,7 @@
 """Property registry: which arms decide which property, tiers, and evidence metadata."""
 from types import SimpleNamespace as NS
 
-from .checks import c19a, c15, c16, c05s, c05h, c03, c13s, c13g
+from .checks import c19a, c15, c16, c05s, c05h, c03, c13s, c13g, c04
 from .refmodel import bitset as _bitset
 
 REAL_COMMON = ['all of elementpath (imported from /repo working tree)', 'CPython re/decimal/json/expat',
@@ -124,4 +124,22 @@ register(
     EXPECTED_PROBES=['fault:io:reset-midread', 'fault:io:truncated', 'fault:io:enoent'],
     ASSUMPTIONS=['category model = unicodedata of the running interpreter (checked only when the installed version equals it)',
                  'the representation is only required to be sorted, disjoint and non-touching'],
+)
+
+register(
+    ID='C04', LEVEL='exploration',
+    ARMS=[(c04, 1.0)], DRIVER=c04.run_check,
+    TIERS={'quick': {'hash_seeds': 32, 'items': 500, 'wall_cap': 100},
+           'thorough': {'hash_seeds': 400, 'items': 3000, 'wall_cap': 900}},
+    RULE='each run = one fresh interpreter started with its own PYTHONHASHSEED (derived from VERIF_SEED) that builds '
+         'the four parsers and processes the same VERIF_SEED-derived corpus of operator trees (rendered with exactly the '
+         'parentheses the EBNF requires plus random redundant ones, in a canonical and a varied whitespace/comment '
+         'layout) and non-associative chains; per item it records syntax tree, parse().tree/source, round-trip tree and '
+         'value; across interpreters all records must be identical (tokenizer pattern text may differ). '
+         'non-trivial/distinct = distinct per-item record digests in one interpreter',
+    REAL=REAL_COMMON + ['CPython str hashing (one real interpreter per hash seed)'],
+    STUB=['none: the hash seed is set through the real PYTHONHASHSEED seam'],
+    EXPECTED_PROBES=[],
+    ASSUMPTIONS=['operator tables transcribed from the W3C EBNF (XPath 1.0, 2.0, 3.0, 3.1); the arrow operator and '
+                 'lookup are covered by the cross-seed and round-trip clauses only'],
 )
